@@ -10,8 +10,8 @@ fields("EADeme", _sample_std_dev="fl", _pop_size="int", _generations="int", _ea=
 fields("DEDeme", _sample_std_dev="fl", _pop_size="int", _generations="int", _de="ref:DE")
 fields("SHADEDeme", _sample_std_dev="fl", _pop_size="int", _init_pop_size="int", _generations="int", _shade="ref:SHADE")
 fields("CMADeme", generations="int", _cma_es="ref:$CMAES")
-fields("LHSDeme", _pop_size="int", sampler="ref:$QMC", lower_bounds="arr:V", upper_bounds="arr:V")
-fields("SobolDeme", _pop_size="int", sampler="ref:$QMC", lower_bounds="arr:V", upper_bounds="arr:V")
+fields("LHSDeme", _pop_size="int", sampler="ref:$QMC", lower_bounds="oarr", upper_bounds="oarr")
+fields("SobolDeme", _pop_size="int", sampler="ref:$QMC", lower_bounds="oarr", upper_bounds="oarr")
 
 ghost_fields(**{"$born": "int"})
 macro("born", ["x"], 'field(x, "$born", "int")')      # value of clock() right after the evaluation that set x.fitness
@@ -91,7 +91,7 @@ def population_deme(qual, engine_attr, engine_call, gens="metaepoch_generations"
     return refine(qual, A + "run_metaepoch", locals={gens: "list[list[ref:Individual]]"},
                   requires=[cl("population", "DemePop(self) and not engine_stop(self)"),
                             cl("engine", f"self.{engine_attr} != None and {limit} >= 1")],
-                  modifies=OWN_FRAME + USER_PROBLEM_FRAME + ENGINE_FRAME + RNG_FRAME,
+                  modifies=OWN_FRAME + USER_PROBLEM_FRAME,
                   loops={0: dict(invariant=deme_loop_invariants(gens, counter, limit))},
                   calls={engine_call: [
                       cl("parents_is_previous_generation", f"arg0 == {prev}", tags="C11 C12"),
@@ -110,11 +110,13 @@ I = "pyhms.core.individual.Individual."
 macro("Unevaluated", ["p", "pop"], """
     pop != None and forall(lambda k: imp(0 <= k < len(pop), pop[k] != None and pop[k].problem == p), pat=pop[k])
 """)
+# an empty population evaluates nothing: the frame is empty then
+EVALPOP_FRAME = [(f, "len(population) > 0 and (" + c + ")") for f, c in chain_frame("population[0].problem")]
 fn(I + "evaluate_population", params={"population": "list[ref:Individual]"}, returns="list[ref:Individual]", self="Individual",
    requires=[cl("one_problem", "len(population) >= 0 and imp(len(population) > 0, Unevaluated(population[0].problem, population) "
                 "and WfProblem(population[0].problem))")],
-   modifies=chain_frame("population[0].problem") + [("fitness", "exists(lambda k: 0 <= k and k < len(population) and o == population[k])")],
-   loops={0: dict(index="k", modifies=chain_frame("population[0].problem") + [("fitness", "exists(lambda q: 0 <= q and q < len(population) and o == population[q])")],
+   modifies=EVALPOP_FRAME + [("fitness", "exists(lambda k: 0 <= k and k < len(population) and o == population[k])")],
+   loops={0: dict(index="k", modifies=EVALPOP_FRAME + [("fitness", "exists(lambda q: 0 <= q and q < len(population) and o == population[q])")],
                   invariant=[
        cl("inv_done", "forall(lambda q: imp(0 <= q < k, evaluated(population[q])), pat=population[q])"),
        cl("inv_same", "imp(len(population) > 0, Unevaluated(population[0].problem, population) and WfProblem(population[0].problem))"),
